@@ -23,6 +23,12 @@ Conventions.
 * Loops "until nothing changed" carry fuel and answer `Outcome.diverge` when it runs out.
 * `G.Productions` is a set: the drivers deduplicate the production list on loading (`NewCFG`), and the
   theorems about `IsLL1` / the table assume `g.prods.Nodup`.
+* The parsing table exists twice: `buildTable` is the Go construction call by call (`addProduction`,
+  `setSync`, entries in creation order, productions of an entry in insertion order), `cell` / `conflicts`
+  are what it amounts to; `Proofs/C10TableEq.lean` proves them equal.  `parseWith` runs on `buildTable`.
+* `ParseAndBuildAST` exists twice as well: `astRun` / `buildASTStack` keep the Go code's explicit stack of
+  pointers to the nodes still to be completed (a pointer is the path from the root), `buildAST` completes
+  the leftmost incomplete node; `Proofs/C12ASTStack.lean` proves them equal.
 
 Core Lean only.
 -/
@@ -305,6 +311,78 @@ def conflicts (g : Grammar T N) (fi : List (Sym T N) → TE T) (fo : N → TEnd 
   g.nonterms.flatMap fun A =>
     (columns g).filterMap fun a => if (cell g fi fo A a).length > 1 then some (A, a) else none
 
+/-! ## `BuildParsingTable`, call by call
+
+The table as the Go code builds it: a map from `(A, a)` to an entry (a set of productions, kept here in
+insertion order, and the sync flag), filled by the `addProduction` / `setSync` calls in the order the code
+makes them.  `Proofs/C10TableEq.lean` shows that its cells are the `cell`s above. -/
+
+/-- `*parsingTableEntry` -/
+structure Entry (T N : Type) where
+  prods : List (GProd T N)
+  sync : Bool
+  deriving Repr
+
+/-- `ParsingTable.table`: entries in creation order -/
+abbrev PTable (T N : Type) := List ((N × Option T) × Entry T N)
+
+/-- `getEntry` -/
+def PTable.get (t : PTable T N) (A : N) (a : Option T) : Option (Entry T N) :=
+  match t with
+  | [] => none
+  | (k, e) :: rest => if k.1 = A ∧ k.2 = a then some e else PTable.get rest A a
+
+/-- `ensureEntry` followed by an update of the entry through the pointer it returns -/
+def PTable.modify (t : PTable T N) (A : N) (a : Option T) (f : Entry T N → Entry T N) : PTable T N :=
+  match t with
+  | [] => [((A, a), f ⟨[], false⟩)]
+  | (k, e) :: rest => if k.1 = A ∧ k.2 = a then (k, f e) :: rest else (k, e) :: PTable.modify rest A a f
+
+/-- `addProduction`: no-op on an entry marked sync -/
+def addProduction (t : PTable T N) (A : N) (a : Option T) (p : GProd T N) : PTable T N :=
+  t.modify A a fun e => if e.sync then e else ⟨insertNew p e.prods, e.sync⟩
+
+/-- `setSync`: no-op on an entry that holds productions -/
+def setSync (t : PTable T N) (A : N) (a : Option T) (s : Bool) : PTable T N :=
+  t.modify A a fun e => if e.prods.isEmpty then ⟨e.prods, s⟩ else e
+
+/-- the columns `addProduction(A, ·, p)` is called with for one production, in call order:
+FIRST(α), then — if ε ∈ FIRST(α) — FOLLOW(A) and, if `$ ∈ FOLLOW(A)`, the endmarker -/
+def prodColumns (fi : List (Sym T N) → TE T) (fo : N → TEnd T) (p : GProd T N) : List (Option T) :=
+  let f := fi p.body
+  f.terms.map some ++
+    (if f.eps then (fo p.head).terms.map some ++ (if (fo p.head).endm then [none] else []) else [])
+
+/-- body of `for p := range G.Productions.All()` -/
+def addProd (fi : List (Sym T N) → TE T) (fo : N → TEnd T) (t : PTable T N) (p : GProd T N) : PTable T N :=
+  (prodColumns fi fo p).foldl (fun t c => addProduction t p.head c p) t
+
+/-- body of `for _, A := range nonTerminals` (the synchronisation sets) -/
+def syncRow (fo : N → TEnd T) (t : PTable T N) (A : N) : PTable T N :=
+  ((fo A).terms.map some ++ (if (fo A).endm then [none] else [])).foldl (fun t c => setSync t A c true) t
+
+/-- `BuildParsingTable`: `ps` is the order in which `G.Productions.All()` yields the productions, `rows`
+the order of `OrderNonTerminals` -/
+def buildTable (fi : List (Sym T N) → TE T) (fo : N → TEnd T) (ps : List (GProd T N)) (rows : List N) :
+    PTable T N :=
+  rows.foldl (syncRow fo) (ps.foldl (addProd fi fo) [])
+
+/-- `M[A,a].Productions` (empty when there is no entry) -/
+def tcell (t : PTable T N) (A : N) (a : Option T) : List (GProd T N) :=
+  match t.get A a with
+  | some e => e.prods
+  | none => []
+
+/-- `IsSync` -/
+def tsync (t : PTable T N) (A : N) (a : Option T) : Bool :=
+  match t.get A a with
+  | some e => e.prods.isEmpty && e.sync
+  | none => false
+
+/-- `Conflicts()`: rows and columns in the order the table was created with -/
+def tconflicts (t : PTable T N) (rows : List N) (cols : List (Option T)) : List (N × Option T) :=
+  rows.flatMap fun A => cols.filterMap fun a => if (tcell t A a).length > 1 then some (A, a) else none
+
 /-! ## the analyses of one grammar, bundled -/
 
 structure Analysis (T N : Type) where
@@ -367,7 +445,16 @@ inductive ParseOut (T N : Type) where
   | done (r : PResult T N)
   deriving Repr
 
+/-- `Parse`: build the table (production and row order do not matter for what follows: the canonical ones
+are used), refuse on `Conflicts()`, run the loop -/
 def parseWith (g : Grammar T N) (an : Analysis T N) (fuel : Nat) (w : List T) : Outcome (ParseOut T N) :=
+  let t := buildTable (firstStr an.first) an.follow g.prods g.nonterms
+  if (tconflicts t g.nonterms (columns g)).isEmpty then
+    (parseLoop (tcell t) fuel [.nonterm g.start] w 0 []).map .done
+  else .ok .tableError
+
+/-- the same with the table given by its cells (`Proofs/C10TableEq.lean`: equal when `g.prods.Nodup`) -/
+def parseWithCells (g : Grammar T N) (an : Analysis T N) (fuel : Nat) (w : List T) : Outcome (ParseOut T N) :=
   let fi := firstStr an.first
   if (conflicts g fi an.follow).isEmpty then
     (parseLoop (cell g fi an.follow) fuel [.nonterm g.start] w 0 []).map .done
@@ -448,6 +535,79 @@ end
 
 /-- the yield of the tree (terminal symbols of the leaves) -/
 def Tree.yield (t : Tree T N) : List T := t.frontier.map (·.1)
+
+/-! ### the builder with the Go code's explicit stack of node pointers
+
+A pointer to a node of the tree under construction is the path to it from the root (child indices): the
+heap the callbacks build is a tree, every node is referenced by its parent's `Children` and — while it
+waits for completion — by the stack.  `astStep` is one callback: pop the pointer, complete the node it
+points to, push pointers to the new children (last child first, so the first child is on top).
+`Proofs/C12ASTStack.lean` shows that this is `buildAST`. -/
+
+mutual
+/-- apply `f` to the node at path `π` -/
+def updateAt (f : Tree T N → Outcome (Tree T N)) : List Nat → Tree T N → Outcome (Tree T N)
+  | [], t => f t
+  | _ :: _, .leaf _ _ => .panic
+  | i :: π, .node A p kids =>
+    match updateKid f i π kids with
+    | .ok kids' => .ok (.node A p kids')
+    | .panic => .panic
+    | .diverge => .diverge
+def updateKid (f : Tree T N → Outcome (Tree T N)) : Nat → List Nat → List (Tree T N) → Outcome (List (Tree T N))
+  | _, _, [] => .panic
+  | 0, π, k :: ks =>
+    match updateAt f π k with
+    | .ok k' => .ok (k' :: ks)
+    | .panic => .panic
+    | .diverge => .diverge
+  | i + 1, π, k :: ks =>
+    match updateKid f i π ks with
+    | .ok ks' => .ok (k :: ks')
+    | .panic => .panic
+    | .diverge => .diverge
+end
+
+/-- the token callback on the popped node: `lf, _ := n.(*LeafNode); lf.Lexeme = …` -/
+def completeLeaf (pos : Nat) : Tree T N → Outcome (Tree T N)
+  | .leaf t _ => .ok (.leaf t (some pos))
+  | .node _ _ _ => .panic
+
+/-- the production callback on the popped node: `in, _ := n.(*InternalNode); in.Production = prod`, children
+prepended one by one (so they end up in body order, in front of whatever was there) -/
+def completeNode (p : GProd T N) : Tree T N → Outcome (Tree T N)
+  | .node A _ kids => .ok (.node A (some p) (newKids p.body ++ kids))
+  | .leaf _ _ => .panic
+
+/-- one callback; the state is the tree and the stack of pointers (top first) -/
+def astStep (e : Event T N) (st : Tree T N × List (List Nat)) : Outcome (Tree T N × List (List Nat)) :=
+  match st.2 with
+  | [] => .panic   -- `Pop` on the empty stack yields nil, the type assertion yields nil, the store panics
+  | π :: stack =>
+    match e with
+    | .tok _ pos =>
+      match updateAt (completeLeaf pos) π st.1 with
+      | .ok t' => .ok (t', stack)
+      | .panic => .panic
+      | .diverge => .diverge
+    | .prod p =>
+      match updateAt (completeNode p) π st.1 with
+      | .ok t' => .ok (t', (List.range p.body.length).map (fun i => π ++ [i]) ++ stack)
+      | .panic => .panic
+      | .diverge => .diverge
+
+def astRun : List (Event T N) → Tree T N × List (List Nat) → Outcome (Tree T N × List (List Nat))
+  | [], st => .ok st
+  | e :: es, st =>
+    match astStep e st with
+    | .ok st' => astRun es st'
+    | .panic => .panic
+    | .diverge => .diverge
+
+/-- `ParseAndBuildAST` on the callbacks of an accepting run: root node on the stack, feed the events,
+return the root -/
+def buildASTStack (S : N) (es : List (Event T N)) : Outcome (Tree T N) :=
+  (astRun es (Tree.node S none [], [[]])).map (·.1)
 
 end
 
